@@ -20,6 +20,7 @@ Announced(r) == IF "announced" \in DOMAIN r THEN {r.announced[k] : k \in 1..Len(
 \* field IS in the reply set (a malformed body), an implementation that reads that body more leniently has not broken the
 \* property: verdicts that rest on the classification are then marked ambiguous (model drift).
 Ambiguous(r, exp) ==
+  /\ ~("wfail" \in DOMAIN r /\ r.wfail # 0)          \* a refused write is no matter of decoding
   /\ Idx(exp.log, IsErr) # {}
   /\ exp.next >= 2 /\ exp.next - 1 <= Len(r.frames)
   /\ LET f == r.frames[exp.next - 1]
@@ -27,6 +28,13 @@ Ambiguous(r, exp) ==
      ~f.trunc /\ Len(f.bytes) >= 2 /\ VariantFor(parser, f.bytes[1] * 256 + f.bytes[2]) # ""
      /\ ~(r.cmd = "WriteFile" /\ ParseEnum(parser, f.bytes).ok)      \* an unanswerable data request is not a matter of decoding
 Amb(r, exp, f) == IF Ambiguous(r, exp) THEN f \o "-ambiguous" ELSE f
+\* a frame whose control field is outside the command's reply set was answered (acknowledged): whatever happens afterwards, the
+\* sequence acknowledged a packet it had no business interpreting
+AnsweredForeign(r) ==
+  \E j \in 1..(Len(r.obs) - 1) :
+     /\ r.obs[j].e = "r" /\ r.obs[j].n >= 2 /\ r.obs[j].n <= Len(r.frames) /\ r.obs[j + 1].e = "w" /\ r.obs[j + 1].a # "cmd"
+     /\ LET f == r.frames[r.obs[j].n] IN
+        ~f.trunc /\ Len(f.bytes) >= 2 /\ VariantFor(SeqOf(r.cmd).parser, f.bytes[1] * 256 + f.bytes[2]) = ""
 
 Flags(r) ==
   IF r.note # "" THEN {"abnormal:" \o r.note}
@@ -39,7 +47,7 @@ Flags(r) ==
             \cup (IF StopAtFinal(r.obs, r.cmd) THEN {} ELSE {"P05-stop-at-final"})
             \cup (IF OneError(r.obs) THEN {} ELSE {"P06-one-error"})
             \cup (IF ErrorThenSilence(r.obs) THEN {} ELSE {"P06-silence"})
-            \cup (IF NoAnswerForBadFrame(r.obs) THEN {} ELSE {"P06-answered-bad-frame"})
+            \cup (IF NoAnswerForBadFrame(r.obs) /\ ~AnsweredForeign(r) THEN {} ELSE {"P06-answered-bad-frame"})
             \cup (IF EndsOnce(r.obs) /\ Idx(r.obs, IsEnd) # {} THEN {} ELSE {"P06-end"})
             \* what the script demanded: delivered items and errors as the specification computes them from the bytes
             \cup (IF Cardinality(Idx(r.obs, IsOk)) = Cardinality(Idx(exp.log, IsOk)) THEN {} ELSE {Amb(r, exp, "P05-delivered-count")})
